@@ -93,6 +93,47 @@ theorem mergeAll_repr {parts : List Part} {docss : List (List IDoc)} (h : ReprAl
     | nil => exact ⟨_, ReprAll.cons hp ReprAll.nil, fun _ h => h, fun _ h _ => h⟩
     | cons hp2 hrest2 => exact big
 
+/-- keeping the partitions apart drops only partitions without tokens -/
+theorem filterParts_repr {parts : List Part} {docss : List (List IDoc)} (h : ReprAll parts docss) :
+    ∃ docss', ReprAll (parts.filter (fun p => !p.postings.isEmpty)) docss' ∧
+      (∀ doc, doc ∈ docss'.flatten → doc ∈ docss.flatten) ∧
+      (∀ doc ∈ docss.flatten, doc.toks ≠ [] → doc ∈ docss'.flatten) := by
+  induction h with
+  | nil => exact ⟨[], ReprAll.nil, by simp, by simp⟩
+  | @cons p d ps ds hp _ ih =>
+    obtain ⟨dd, hr, h1, h2⟩ := ih
+    by_cases he : p.postings.isEmpty = true
+    · refine ⟨dd, by simpa [List.filter_cons, he] using hr, ?_, ?_⟩
+      · intro doc hd
+        simp only [List.flatten_cons, List.mem_append]
+        exact Or.inr (h1 doc hd)
+      · intro doc hd hne
+        simp only [List.flatten_cons, List.mem_append] at hd
+        rcases hd with hd | hd
+        · exact absurd (no_tokens_of_empty hp he doc hd) hne
+        · exact h2 doc hd hne
+    · refine ⟨d :: dd, by simpa [List.filter_cons, he] using ReprAll.cons hp hr, ?_, ?_⟩
+      · intro doc hd
+        simp only [List.flatten_cons, List.mem_append] at hd ⊢
+        rcases hd with hd | hd
+        · exact Or.inl hd
+        · exact Or.inr (h1 doc hd)
+      · intro doc hd hne
+        simp only [List.flatten_cons, List.mem_append] at hd ⊢
+        rcases hd with hd | hd
+        · exact Or.inl hd
+        · exact Or.inr (h2 doc hd hne)
+
+theorem splitAll_repr {parts : List Part} {docss : List (List IDoc)} (h : ReprAll parts docss) :
+    ∃ docss', ReprAll (splitAll parts) docss' ∧ (∀ doc, doc ∈ docss'.flatten → doc ∈ docss.flatten) ∧
+      (∀ doc ∈ docss.flatten, doc.toks ≠ [] → doc ∈ docss'.flatten) := by
+  cases h with
+  | nil => exact ⟨[], ReprAll.nil, by simp, by simp⟩
+  | cons hp hrest =>
+    cases hrest with
+    | nil => exact ⟨_, ReprAll.cons hp ReprAll.nil, fun _ h => h, fun _ h _ => h⟩
+    | cons hp2 hrest2 => exact filterParts_repr (ReprAll.cons hp (ReprAll.cons hp2 hrest2))
+
 /-! ### rows and documents -/
 
 theorem mem_docsOf (ops : CharOps) (cfg : Cfg) (rows : List Row) (sel : Nat → Bool) (doc : IDoc) :
@@ -133,10 +174,10 @@ structure Consistent (ops : CharOps) (ds : Ds) : Prop where
       (∀ r ∈ ds.rows, r.deleted = false → ix.frags.contains r.frag = true → ∀ t, r.text = some t →
           tokenize ops ds.cfg t ≠ [] → ∃ doc ∈ docss.flatten, doc.rowId = r.id)
 
-theorem wf_init (cfg : Cfg) : WF (Ds.init cfg) := ⟨by simp [Ds.init], by simp [Ds.init]⟩
+theorem wf_init (cfg : Cfg) (split : Bool) : WF (Ds.init cfg split) := ⟨by simp [Ds.init], by simp [Ds.init]⟩
 
-theorem consistent_init (ops : CharOps) (cfg : Cfg) : Consistent ops (Ds.init cfg) :=
-  ⟨wf_init cfg, by intro ix h; simp [Ds.init] at h⟩
+theorem consistent_init (ops : CharOps) (cfg : Cfg) (split : Bool) : Consistent ops (Ds.init cfg split) :=
+  ⟨wf_init cfg split, by intro ix h; simp [Ds.init] at h⟩
 
 /-- rows with the same key are the same row -/
 theorem row_unique {ds : Ds} (h : WF ds) {r r' : Row} (hr : r ∈ ds.rows) (hr' : r' ∈ ds.rows) (hid : r.id = r'.id) :
